@@ -31,7 +31,7 @@ use hickory_proto::serialize::binary::{BinDecodable, BinDecoder};
 use hickory_server::server::{Request, RequestHandler, ResponseHandle};
 use hickory_server::store::file::FileZoneHandler;
 use hickory_server::store::in_memory::InMemoryZoneHandler;
-use hickory_server::store::sqlite::{Journal, SqliteZoneHandler};
+use hickory_server::store::sqlite::{Journal, SqliteConfig, SqliteZoneHandler, TsigKeyConfig};
 use hickory_server::zone_handler::{AxfrPolicy, Catalog, ZoneHandler, ZoneType};
 
 use crate::common::*;
@@ -606,8 +606,12 @@ fn origin() -> Name {
 }
 
 fn base_zone(policy: AxfrPolicy) -> InMemoryZoneHandler<TokioRuntimeProvider> {
+    base_zone_of(policy, ZoneType::Primary)
+}
+
+fn base_zone_of(policy: AxfrPolicy, zt: ZoneType) -> InMemoryZoneHandler<TokioRuntimeProvider> {
     let o = origin();
-    let mut z = InMemoryZoneHandler::<TokioRuntimeProvider>::empty(o.clone(), ZoneType::Primary, policy, None);
+    let mut z = InMemoryZoneHandler::<TokioRuntimeProvider>::empty(o.clone(), zt, policy, None);
     let soa = SOA::new(Name::from_ascii("ns.example.com.").unwrap(), Name::from_ascii("admin.example.com.").unwrap(), 20260101, 7200, 3600, 360000, 60);
     z.upsert_mut(Record::from_rdata(o.clone(), 3600, RData::SOA(soa)), 0);
     z.upsert_mut(Record::from_rdata(o.clone(), 3600, RData::NS(NS(Name::from_ascii("ns.example.com.").unwrap()))), 0);
@@ -627,6 +631,30 @@ fn build_zone(policy: AxfrPolicy, allow_update: bool, signers: Vec<TSigner>, jou
         rt.block_on(h.persist_to_journal()).expect("persist");
     }
     Arc::new(h)
+}
+
+/// the sqlite store as a server builds it: `SqliteZoneHandler::try_from_config` from a zone file, a
+/// journal path and TSIG key files (all under the `--out` dir); `reopen`: built, dropped and built
+/// again, i.e. recovered from the journal the first construction wrote
+fn build_from_config(policy: AxfrPolicy, allow_update: bool, specs: &[SignerSpec], dir: &std::path::Path, reopen: bool, rt: &tokio::runtime::Runtime) -> Option<Arc<SqliteZoneHandler>> {
+    std::fs::create_dir_all(dir).ok()?;
+    let zone = "@ 3600 IN SOA ns.example.com. admin.example.com. 20260101 7200 3600 360000 60\n@ 3600 IN NS ns.example.com.\nns 3600 IN A 192.0.2.1\nwww 300 IN A 192.0.2.80\n";
+    std::fs::write(dir.join("example.com.zone"), zone).ok()?;
+    let _ = std::fs::remove_file(dir.join("example.com.jrnl"));
+    let mut keys = vec![];
+    for s in specs {
+        let f = format!("key-{}.bin", s.keyid);
+        std::fs::write(dir.join(&f), key_bytes(&s.keyid)).ok()?;
+        keys.push(TsigKeyConfig { name: s.name.to_ascii(), key_file: f.into(), algorithm: alg_of(s.bits)?, fudge: s.fudge });
+    }
+    let cfg = SqliteConfig { zone_path: "example.com.zone".into(), journal_path: "example.com.jrnl".into(), allow_update, tsig_keys: keys };
+    let mk = || rt.block_on(SqliteZoneHandler::try_from_config(origin(), ZoneType::Primary, policy, false, Some(dir), &cfg, None)).ok();
+    let h = mk()?;
+    if reopen {
+        drop(h);
+        return mk().map(Arc::new);
+    }
+    Some(Arc::new(h))
 }
 
 fn zone_dump(h: &InMemoryZoneHandler<TokioRuntimeProvider>, rt: &tokio::runtime::Runtime) -> (String, u32) {
@@ -774,11 +802,25 @@ fn exec_srv(t: &[&str], cx: &Ctx) -> Option<CaseOut> {
     let now: u64 = now.parse().ok()?;
     let buf = unhex(buf)?;
     let store = *jr;
-    if !["0", "1", "m", "f"].contains(&store) {
+    if !["0", "1", "m", "f", "c", "r", "s", "e"].contains(&store) {
         return None;
     }
     let jr = store == "1";
     let ok = rdok(&buf);
+    // a key that comes from the configuration gets its name through `Name::from_str` (which
+    // lower-cases; an unparsable name falls back to the zone name): the model is told the name the
+    // server really holds
+    let specs: Vec<SignerSpec> = if store == "c" || store == "r" {
+        specs
+            .into_iter()
+            .map(|mut s| {
+                s.name = <Name as std::str::FromStr>::from_str(&s.name.to_ascii()).unwrap_or_else(|_| origin());
+                s
+            })
+            .collect()
+    } else {
+        specs
+    };
     let sg_toks: Vec<String> = specs.iter().map(|s| s.tok(macok_for(s, &buf, None, true))).collect();
     let line = format!(
         "srv {} {} {} {} {} {} {} {}",
@@ -836,7 +878,16 @@ fn exec_srv(t: &[&str], cx: &Ctx) -> Option<CaseOut> {
     // the store: sqlite (policy and TSIG in the SqliteZoneHandler), or in-memory / file (policy in
     // the InMemoryZoneHandler, no TSIG processing, no updates)
     let mut catalog = Catalog::new();
-    let sqlite = if store == "0" || store == "1" { Some(build_zone(policy, au, signers, if jr { Some(&cx.journal_path) } else { None }, &cx.rt)) } else { None };
+    let sqlite = match store {
+        "0" | "1" => Some(build_zone(policy, au, signers, if jr { Some(&cx.journal_path) } else { None }, &cx.rt)),
+        "c" | "r" => Some(build_from_config(policy, au, &specs, &cx.journal_path.with_file_name("c13-config"), store == "r", &cx.rt)?),
+        "s" | "e" => {
+            let mut h = SqliteZoneHandler::new(base_zone_of(AxfrPolicy::AllowAll, if store == "s" { ZoneType::Secondary } else { ZoneType::External }), policy, au, false);
+            h.set_tsig_signers(signers);
+            Some(Arc::new(h))
+        }
+        _ => None,
+    };
     let mem: Option<Arc<InMemoryZoneHandler<TokioRuntimeProvider>>> = if store == "m" { Some(Arc::new(base_zone(policy))) } else { None };
     let file: Option<Arc<FileZoneHandler>> = if store == "f" { Some(Arc::new(cx.rt.block_on(FileZoneHandler::new(base_zone(policy))))) } else { None };
     let as_handler: Arc<dyn ZoneHandler> = match (&sqlite, &mem, &file) {
@@ -908,6 +959,16 @@ fn exec_srv(t: &[&str], cx: &Ctx) -> Option<CaseOut> {
             if changed && kind != "upd" {
                 fails.push((format!("zone changed by a request that is not an UPDATE for the zone ({kind})"), ""));
             }
+            // an accepted signed request is answered with a MAC'ed reply (which the client can verify)
+            if kind == "upd" && changed && rm.signature().is_none() {
+                fails.push((
+                    format!("the update was applied but answered without TSIG (rcode {rc}): the client cannot tell it took effect"),
+                    if now < (1u64 << 48) { "" } else { "C13.ClockBeyond48Bits" },
+                ));
+            }
+            if kind == "upd" && changed && (store == "s" || store == "e") {
+                fails.push(("zone changed by an update sent to a zone that is not Primary".into(), ""));
+            }
             if kind == "upd" && changed && !(au && valid) {
                 fails.push((format!("zone changed by an update that is not (allowed ∧ signed ∧ valid ∧ timely): allow_update={au} reference={verdict:?}"), class));
             }
@@ -915,7 +976,11 @@ fn exec_srv(t: &[&str], cx: &Ctx) -> Option<CaseOut> {
             // enumerates the zone (records of three or more owner names; no ordinary answer of
             // this zone has more than one)
             let owners: std::collections::BTreeSet<String> = rm.answers.iter().map(|r| r.name.to_ascii().to_lowercase()).collect();
-            let sqlite_store = store == "0" || store == "1";
+            let sqlite_store = !(store == "m" || store == "f");
+            // a clock of 2^48 s or more cannot be written into a TSIG: every reply that would carry one
+            // becomes SERVFAIL (observation, design/C13.md); no liveness demand there
+            let clock_fits = now < (1u64 << 48);
+            let primary = !(store == "s" || store == "e");
             if owners.len() >= 3 {
                 stats.push(format!("srv.transfer-content.qtype{}", u16::from(qtype)));
                 let admitted = match policy {
@@ -944,8 +1009,8 @@ fn exec_srv(t: &[&str], cx: &Ctx) -> Option<CaseOut> {
             let canonical = rtsig.as_ref().is_some_and(|t| t.alg_plain && t.class == 255 && t.ttl == 0 && t.error == 0 && t.other.is_empty())
                 && buf.len() > 3
                 && buf[3] & 0x40 == 0;
-            if matches!(verdict, RefVerdict::Valid { strict: true }) && canonical && !effect && sqlite_store {
-                let expected = (kind == "upd" && au) || (kind == "axfr" && policy != AxfrPolicy::Deny);
+            if matches!(verdict, RefVerdict::Valid { strict: true }) && canonical && !effect && sqlite_store && clock_fits {
+                let expected = (kind == "upd" && au && primary) || (kind == "axfr" && policy != AxfrPolicy::Deny);
                 if expected {
                     fails.push(("a correctly signed, timely request was refused".into(), ""));
                 }
@@ -1065,19 +1130,33 @@ fn exec_mseq(t: &[&str]) -> Option<Vec<CaseOut>> {
     let sg = SignerSpec::parse(sg)?;
     let signer = sg.signer()?;
     let qt: u64 = qt.parse().ok()?;
-    let kinds: Vec<&str> = kinds.split(',').collect();
+    // `A:` prefix: the request is an ordinary A query — `should_sign_message` is false, the
+    // multiplexer sends it unsigned and keeps no verifier although a signer is configured
+    let plain = kinds.starts_with("A:");
+    let kinds_tok = kinds.to_string();
+    let kinds: Vec<&str> = kinds.trim_start_matches("A:").split(',').collect();
     let addr: SocketAddr = "192.0.2.53:53".parse().unwrap();
     let inbox = Arc::new(std::sync::Mutex::new(std::collections::VecDeque::new()));
     let (handle, mut out_rx): (BufDnsStreamHandle, StreamReceiver) = BufDnsStreamHandle::new(addr);
     let mut mux = DnsMultiplexer::new(Scripted { inbox: inbox.clone(), addr }, handle).with_signer(signer);
     NOW.store(qt, Ordering::SeqCst);
-    let mut resp: DnsResponseStream = mux.send_message(DnsRequest::new(axfr_msg(0), DnsRequestOptions::default()));
+    let request = if plain {
+        let mut m = Message::new(0, MessageType::Query, OpCode::Query);
+        m.add_query(Query::new(Name::from_ascii("www.example.com.").unwrap(), RecordType::A));
+        m
+    } else {
+        axfr_msg(0)
+    };
+    let mut resp: DnsResponseStream = mux.send_message(DnsRequest::new(request, DnsRequestOptions::default()));
     let sent = out_rx.next().now_or_never().flatten()?.into_parts().0;
-    let rq = ref_tsig(&sent)?;
     let id = r16(&sent, 0)? as u16;
-    let reqmac = rq.mac.clone();
+    let reqmac = match ref_tsig(&sent) {
+        Some(rq) => rq.mac.clone(),
+        None if plain => vec![],
+        None => return None,
+    };
     let mut outs = vec![CaseOut {
-        line: format!("begin mseq {} {} {} {} {}", sg.tok(false), hex(&reqmac), qt, id, kinds.join(",")),
+        line: format!("begin mseq {} {} {} {} {}", sg.tok(false), hex(&reqmac), qt, id, kinds_tok),
         out: "ok".into(),
         fails: vec![],
         nontrivial: false,
@@ -1105,6 +1184,15 @@ fn exec_mseq(t: &[&str]) -> Option<Vec<CaseOut>> {
             "k" => sign_chained(&base, &sg, "kx", &prev, qt, first)?.0,
             "s" => sign_chained(&base, &sg, &sg.keyid, &prev, qt + sg.fudge as u64 + 50, first)?.0,
             "r" => last_ok.clone().unwrap_or_else(unsigned),
+            // valid next message of the chain, but for another request id
+            "i" => sign_chained(&chain_msg(id.wrapping_add(1), pos as u32, 1), &sg, &sg.keyid, &prev, qt, first)?.0,
+            // does not decode at all / decodes as a query, not a response
+            "g" => vec![0xde, 0xad, 0xbe, 0xef, 0x01],
+            "q" => {
+                let mut m = Message::new(id, MessageType::Query, OpCode::Query);
+                m.add_query(Query::new(origin(), RecordType::AXFR));
+                m.to_vec().ok()?
+            }
             "t" => {
                 let good = sign_chained(&base, &sg, &sg.keyid, &prev, qt, first)?.0;
                 let mut gm = Message::from_vec(&good).ok()?;
@@ -1121,8 +1209,9 @@ fn exec_mseq(t: &[&str]) -> Option<Vec<CaseOut>> {
         let pok = catch(|| DnsResponse::from_buffer(buf.clone()).is_ok()).unwrap_or(false);
         let mok = macok_for(&sg, &buf, Some(&prev), first);
         let (v, _) = ref_verify_ex(&buf, std::slice::from_ref(&sg), qt, Some(&prev), first);
-        let r = ref_tsig(&buf);
-        let authentic = pok && matches!(v, RefVerdict::Valid { .. }) && r.as_ref().is_some_and(|r| r.time >= rt);
+        let r = if plain { None } else { ref_tsig(&buf) };
+        let id_ok = r16(&buf, 0) == Some(id as usize);
+        let authentic = if plain { pok && id_ok } else { pok && id_ok && matches!(v, RefVerdict::Valid { .. }) && r.as_ref().is_some_and(|r| r.time >= rt) };
         // feed it, run the multiplexer, read the caller's stream
         inbox.lock().unwrap().push_back(buf.clone());
         let mut fails: Vec<(String, &'static str)> = vec![];
@@ -1174,7 +1263,7 @@ fn exec_mseq(t: &[&str]) -> Option<Vec<CaseOut>> {
                 rt = r.time;
                 last_ok = Some(buf.clone());
             }
-        } else {
+        } else if !plain {
             failed_before = true;
         }
         let nontrivial = out.starts_with("ok") && failed_before;
@@ -1246,11 +1335,23 @@ fn exec_udp(t: &[&str]) -> Option<CaseOut> {
     let qt: u64 = t[3].parse().ok()?;
     let id: u16 = t[4].parse().ok()?;
     let dgrams: Vec<Vec<u8>> = t[5..].chunks(4).map(|c| unhex(c[0])).collect::<Option<_>>()?;
-    // what the stream will send
-    let req = axfr_msg(id);
-    let mut rq = req.clone();
-    rq.finalize(&signer, qt).ok()?;
-    let reqmac = rq.signature()?.data.mac.clone();
+    // what the stream will send: a signed AXFR, or (`-` as request MAC) an ordinary A query, which
+    // `should_sign_message` leaves unsigned and unverified although a signer is configured
+    let plain = t[2] == "-";
+    let req = if plain {
+        let mut m = Message::new(id, MessageType::Query, OpCode::Query);
+        m.add_query(Query::new(Name::from_ascii("www.example.com.").unwrap(), RecordType::A));
+        m
+    } else {
+        axfr_msg(id)
+    };
+    let reqmac = if plain {
+        vec![]
+    } else {
+        let mut rq = req.clone();
+        rq.finalize(&signer, qt).ok()?;
+        rq.signature()?.data.mac.clone()
+    };
     // per datagram: the parse summary and which one reaches the verifier
     let mut toks = vec![];
     let mut reaches: Option<usize> = None;
@@ -1264,7 +1365,7 @@ fn exec_udp(t: &[&str]) -> Option<CaseOut> {
         }
         toks.push(format!("{} {} {} {}", hex(d), b(ok), b(pok), b(qok)));
     }
-    let mok = reaches.is_some_and(|i| macok_for(&sg, &dgrams[i], Some(&reqmac), true));
+    let mok = !plain && reaches.is_some_and(|i| macok_for(&sg, &dgrams[i], Some(&reqmac), true));
     let line = format!("udp {} {} {} {} {}", sg.tok(mok), hex(&reqmac), qt, id, toks.join(" ")).trim_end().to_string();
     // run
     let addr: SocketAddr = "192.0.2.53:53".parse().unwrap();
@@ -1289,6 +1390,10 @@ fn exec_udp(t: &[&str]) -> Option<CaseOut> {
             fails.push(("the UDP request neither completed nor failed".into(), ""));
             "hang".into()
         }
+        Ok(Some(Ok(_))) if plain => {
+            stats.push("udp.plain.ok".into());
+            "ok ? ?".into()
+        }
         Ok(Some(Ok(bytes))) => {
             stats.push("udp.ok".into());
             nontrivial = true;
@@ -1304,7 +1409,7 @@ fn exec_udp(t: &[&str]) -> Option<CaseOut> {
         }
         Ok(Some(Err(()))) => {
             stats.push("udp.err".into());
-            if let Some(i) = reaches {
+            if let (Some(i), false) = (reaches, plain) {
                 let (v, rt_) = ref_verify_ex(&dgrams[i], std::slice::from_ref(&sg), qt, Some(&reqmac), true);
                 let canonical = rt_.as_ref().is_some_and(|t| t.alg_plain && t.class == 255 && t.ttl == 0 && t.other.is_empty());
                 if canonical && matches!(v, RefVerdict::Valid { strict: true }) {
@@ -1315,6 +1420,105 @@ fn exec_udp(t: &[&str]) -> Option<CaseOut> {
         }
     };
     Some(CaseOut { line, out, fails, nontrivial, stats })
+}
+
+/// `api <what>` — implementation-vs-oracle only (`~`): limits and refusals of the typed API that no
+/// wire input reaches.
+fn exec_api(t: &[&str]) -> Option<CaseOut> {
+    let [_, what] = t else { return None };
+    let mut fails: Vec<(String, &'static str)> = vec![];
+    let all = [
+        TsigAlgorithm::HmacMd5, TsigAlgorithm::Gss, TsigAlgorithm::HmacSha1, TsigAlgorithm::HmacSha224, TsigAlgorithm::HmacSha256,
+        TsigAlgorithm::HmacSha256_128, TsigAlgorithm::HmacSha384, TsigAlgorithm::HmacSha384_192, TsigAlgorithm::HmacSha512,
+        TsigAlgorithm::HmacSha512_256, TsigAlgorithm::Unknown(Name::from_ascii("hmac-sha3-256").unwrap()),
+    ];
+    let r = catch(|| match *what {
+        // a key can only be configured with an algorithm whose MAC can be computed
+        "signer-new" => {
+            for al in &all {
+                let made = TSigner::new(b"key".to_vec(), al.clone(), Name::from_ascii("k.").unwrap(), 300).is_ok();
+                let full = matches!(al, TsigAlgorithm::HmacSha256 | TsigAlgorithm::HmacSha384 | TsigAlgorithm::HmacSha512);
+                if made != full {
+                    fails.push((format!("TSigner::new({al}) = {made}, but the algorithm's full-length MAC is {}", if full { "supported" } else { "not supported" }), ""));
+                }
+                if al.supported() != full {
+                    fails.push((format!("TsigAlgorithm::supported({al}) != {full}"), ""));
+                }
+            }
+            true
+        }
+        "mac-unsupported" => {
+            for al in &all {
+                let full = matches!(al, TsigAlgorithm::HmacSha256 | TsigAlgorithm::HmacSha384 | TsigAlgorithm::HmacSha512);
+                let tag = al.mac_data(b"key", b"data");
+                if tag.is_ok() != full {
+                    fails.push((format!("mac_data({al}).is_ok() != {full}"), ""));
+                }
+                let v = al.verify_mac(b"key", b"data", tag.as_deref().unwrap_or(&[0u8; 32]));
+                if v.is_ok() != full {
+                    fails.push((format!("verify_mac({al}) of its own tag: {}", v.is_ok()), ""));
+                }
+                if full && al.verify_mac(b"key", b"data", &tag.as_ref().unwrap()[..16]).is_ok() {
+                    fails.push((format!("verify_mac({al}) accepted a truncated tag"), ""));
+                }
+            }
+            true
+        }
+        // what does not fit the wire format is an encoding error, never a panic or a truncated field
+        "emit-limits" => {
+            let m0 = update_msg(7, 1, false, false);
+            for (tag, tsig) in [
+                ("time 2^48", TSIG::new(TsigAlgorithm::HmacSha256, 1 << 48, 300, vec![1; 32], 7, None, vec![])),
+                ("mac 70000", TSIG::new(TsigAlgorithm::HmacSha256, T0, 300, vec![1; 70000], 7, None, vec![])),
+                ("other 70000", TSIG::new(TsigAlgorithm::HmacSha256, T0, 300, vec![1; 32], 7, None, vec![2; 70000])),
+            ] {
+                let mut m = m0.clone();
+                m.set_signature(Box::new(make_tsig_record(Name::from_ascii("k.").unwrap(), tsig)));
+                if m.to_vec().is_ok() {
+                    fails.push((format!("a TSIG with {tag} was encoded"), ""));
+                }
+            }
+            // Display and accessors: no panic
+            let t_ = TSIG::new(TsigAlgorithm::HmacSha256, T0, 300, vec![1; 32], 7, Some(TsigError::BadTime), vec![0; 6]);
+            let _ = format!("{t_} {}", TsigAlgorithm::Gss);
+            let s_ = sa().signer().unwrap();
+            s_.key().len() == 32
+        }
+        _ => false,
+    });
+    match r {
+        Ok(true) => {}
+        Ok(false) => return None,
+        Err(p) => fails.push((format!("panic: {p}"), "")),
+    }
+    Some(CaseOut { line: format!("api {what}"), out: "~".into(), fails, nontrivial: false, stats: vec![format!("api.{what}")] })
+}
+
+/// Appends a TSIG RR built octet by octet (no hickory encoder) to a message that has none and MACs it
+/// with the key over the TBS the real `signed_bitmessage_to_buf` derives (stub MAC if it refuses).
+fn raw_sign(unsigned: &[u8], s: &SignerSpec, time: u64) -> Vec<u8> {
+    let mk = |mac: &[u8]| {
+        let mut b_ = unsigned.to_vec();
+        let ar = r16(&b_, 10).unwrap() as u16;
+        patch16(&mut b_, 10, ar + 1);
+        let alg = lower_wire(&alg_labels(s.bits));
+        b_.extend(lower_wire(&lower_labels(&s.name)));
+        b_.extend([0, 250, 0, 255, 0, 0, 0, 0]);
+        b_.extend(((alg.len() + 16 + mac.len()) as u16).to_be_bytes());
+        b_.extend(alg);
+        b_.extend(&time.to_be_bytes()[2..8]);
+        b_.extend(s.fudge.to_be_bytes());
+        b_.extend((mac.len() as u16).to_be_bytes());
+        b_.extend(mac);
+        b_.extend(&unsigned[0..2]);
+        b_.extend([0, 0, 0, 0]);
+        b_
+    };
+    let stub = mk(&vec![0u8; (s.bits / 8) as usize]);
+    match real_tbs(&stub, None, true) {
+        Ok(Ok((tbs, _))) => mk(&alg_of(s.bits).unwrap().mac_data(&key_bytes(&s.keyid), &tbs).unwrap()),
+        _ => stub,
+    }
 }
 
 /// `bigxfr <extra records> <udp|tcp> <edns payload|0>` — implementation-vs-oracle only (`~`): a signed
@@ -1418,7 +1622,7 @@ fn exec(line: &str, rec: &mut Recorder, cx: &Ctx) {
                     record(c, &op, rec);
                 }
             }
-            Ok(None) => rec.stat("skipped.unparsable-case"),
+            Ok(None) => rec.stat(&format!("skipped.unparsable-case.mseq.{}", t.last().unwrap_or(&""))),
             Err(p) => {
                 let idx = rec.case(line.to_string(), format!("panic {p}"));
                 rec.fail(idx, format!("harness panic: {p}"), "");
@@ -1443,6 +1647,7 @@ fn exec(line: &str, rec: &mut Recorder, cx: &Ctx) {
         Some("bigxfr") => exec_bigxfr(&t, cx),
         Some("ssm") => exec_ssm(&t),
         Some("udp") => exec_udp(&t),
+        Some("api") => exec_api(&t),
         Some("begin") => exec_vseq_begin(&t, cx),
         Some("vmsg") => exec_vmsg(&t, cx),
         Some("end") => exec_vseq_end(cx),
@@ -1450,7 +1655,7 @@ fn exec(line: &str, rec: &mut Recorder, cx: &Ctx) {
     });
     match r {
         Ok(Some(c)) => record(c, t[0], rec),
-        Ok(None) => rec.stat("skipped.unparsable-case"),
+        Ok(None) => rec.stat(&format!("skipped.unparsable-case.{}", t.first().unwrap_or(&""))),
         Err(p) => {
             let idx = rec.case(line.to_string(), format!("panic {p}"));
             rec.fail(idx, format!("harness panic: {p}"), "");
@@ -1838,7 +2043,7 @@ pub fn run(o: &Opts, rec: &mut Recorder) {
         let mut e = base.clone();
         e.0 = Name::from_ascii(kn.to_ascii().to_uppercase()).unwrap();
         edits.push(("keyname-upper", e, T0));
-        for al in [TsigAlgorithm::HmacSha256, TsigAlgorithm::HmacSha384, TsigAlgorithm::HmacSha512, TsigAlgorithm::HmacSha1, TsigAlgorithm::HmacSha256_128, TsigAlgorithm::Unknown(Name::from_ascii("HMAC-SHA256").unwrap()), TsigAlgorithm::Unknown(Name::from_ascii("hmac-sha256.example").unwrap())] {
+        for al in [TsigAlgorithm::HmacSha256, TsigAlgorithm::HmacSha384, TsigAlgorithm::HmacSha512, TsigAlgorithm::HmacSha1, TsigAlgorithm::HmacSha256_128, TsigAlgorithm::HmacMd5, TsigAlgorithm::Gss, TsigAlgorithm::HmacSha224, TsigAlgorithm::HmacSha384_192, TsigAlgorithm::HmacSha512_256, TsigAlgorithm::Unknown(Name::from_ascii("HMAC-SHA256").unwrap()), TsigAlgorithm::Unknown(Name::from_ascii("hmac-sha256.example").unwrap())] {
             let mut e = base.clone();
             e.1 = al;
             edits.push(("alg", e, T0));
@@ -2128,6 +2333,93 @@ pub fn run(o: &Opts, rec: &mut Recorder) {
                 let signer = if serial % 2 == 0 { &a } else { &bq };
                 serial += 1;
                 g.run(format!("begin mseq {} {} {}", signer.tok(false), T0, ks.join(",")));
+            }
+        }
+    }
+
+    // ---- (4g) coverage-driven families ------------------------------------------------------------
+    {
+        // store variants: sqlite from its config (zone file, journal, key files), re-opened from the
+        // journal, zone types Secondary / External, and UPDATEs sent to the in-memory / file stores
+        for (buf, _, m) in bases.clone().into_iter().take(4) {
+            let unsigned = m.to_vec().unwrap();
+            for store in ["c", "r", "s", "e", "m", "f"] {
+                for b_ in [&buf, &unsigned] {
+                    for pol in ["signed", "all"] {
+                        let l = cfg_line(true, pol, &std_keys, T0, b_, false);
+                        g.run(format!("{} {}", l.rsplit_once(' ').unwrap().0, store));
+                    }
+                }
+                let l = cfg_line(true, "signed", &std_keys, T0 + 100_000, &buf, false);
+                g.run(format!("{} {}", l.rsplit_once(' ').unwrap().0, store));
+            }
+        }
+        // a server clock that does not fit the 48-bit time of a TSIG: the reply cannot be signed
+        let t1: u64 = (1 << 48) - 100;
+        for m in [update_msg(g.rng.next() as u16, 901, false, false), axfr_msg(g.rng.next() as u16)] {
+            let buf = sign_with(&m, &a.name, TsigAlgorithm::HmacSha256, &key_bytes("ka"), &TsigAlgorithm::HmacSha256, t1, 300, m.metadata.id, None, vec![]).unwrap();
+            for now in [t1 + 50, 1u64 << 48, (1 << 48) + 100, (1 << 48) + 250, T0 + (1 << 48)] {
+                g.run(cfg_line(true, "signed", &std_keys, now, &buf, false));
+            }
+            g.run(cfg_line(true, "signed", &[spec("tsig-key.", 256, 300, "kx")], (1 << 48) + 100, &buf, false));
+            g.run(cfg_line(true, "signed", &[], (1 << 48) + 100, &buf, false));
+        }
+        // a key with the third supported algorithm
+        let sc = spec("Key-384.", 384, 120, "kb");
+        for m in [update_msg(g.rng.next() as u16, 902, true, false), axfr_msg(g.rng.next() as u16)] {
+            let buf = sign_plain(&m, &sc, T0);
+            for keys in [vec![sc.clone()], vec![a.clone(), sc.clone()], vec![spec("key-384.", 512, 120, "kb")]] {
+                g.run(cfg_line(true, "signed", &keys, T0, &buf, false));
+            }
+            g.raw(&buf, &sc);
+        }
+        // arms of read_records that typed messages do not reach: a SIG(0) record and OPT records in
+        // the additional section in front of the TSIG RR, written octet by octet
+        let sig_rr: Vec<u8> = [&[0u8, 0, 24, 0, 255, 0, 0, 0, 0, 0, 23][..], &[0, 1, 8, 0, 0, 0, 0, 0, 0x65, 0x53, 0xf2, 0, 0x65, 0x53, 0xf0, 0, 0x12, 0x34, 0, 1, 2, 3, 4][..]].concat();
+        let opt_rr: Vec<u8> = vec![0, 0, 41, 0x04, 0xd0, 0, 0, 0, 0, 0, 0];
+        let opt_v1: Vec<u8> = vec![0, 0, 41, 0x04, 0xd0, 0, 1, 0, 0, 0, 0];
+        for (tag, extra, n) in [("sig", sig_rr.clone(), 1u16), ("opt", opt_rr.clone(), 1), ("opt-opt", [opt_rr.clone(), opt_rr.clone()].concat(), 2), ("sig-opt", [sig_rr.clone(), opt_rr.clone()].concat(), 2), ("opt-sig-opt", [opt_rr.clone(), sig_rr.clone(), opt_rr.clone()].concat(), 3), ("opt-v1", opt_v1.clone(), 1)] {
+            for m in [update_msg(g.rng.next() as u16, 903, false, false), axfr_msg(g.rng.next() as u16)] {
+                let mut un = m.to_vec().unwrap();
+                un.extend(&extra);
+                patch16(&mut un, 10, n);
+                let buf = raw_sign(&un, &a, T0);
+                g.rec.stat(&format!("gen.raw.{tag}"));
+                g.probe(&buf, T0, &std_keys);
+                g.probe(&un, T0, &std_keys);
+            }
+        }
+        for what in ["signer-new", "mac-unsupported", "emit-limits"] {
+            g.run(format!("api {what}"));
+        }
+        // multiplexer: foreign id, undecodable, not a response — mixed into histories; and requests
+        // that `should_sign_message` leaves unsigned
+        const K10: [&str; 10] = ["v", "u", "m", "k", "s", "r", "t", "i", "g", "q"];
+        for j in 0..o.n(1500, 6000) {
+            let len = 2 + j % 3;
+            let mut ks: Vec<&str> = (0..len).map(|_| *g.rng.pick(&K10)).collect();
+            let pos = g.rng.below(len as u64) as usize;
+            ks[pos] = ["i", "g", "q"][j % 3];
+            let signer = if j % 2 == 0 { &a } else { &bq };
+            g.run(format!("begin mseq {} {} {}", signer.tok(false), T0, ks.join(",")));
+        }
+        for ks in ["u", "u,u", "i,u", "g,u", "q,u", "u,i,g,u"] {
+            g.run(format!("begin mseq {} {} A:{}", a.tok(false), T0, ks));
+        }
+        // UDP: the same for a request that is not signed
+        {
+            let id = g.rng.next() as u16;
+            let mut rm = Message::response(id, OpCode::Query);
+            rm.add_query(Query::new(Name::from_ascii("www.example.com.").unwrap(), RecordType::A));
+            rm.add_answer(Record::from_rdata(Name::from_ascii("www.example.com.").unwrap(), 300, RData::A(A::new(192, 0, 2, 80))));
+            let plain_reply = rm.to_vec().unwrap();
+            let mut foreign = plain_reply.clone();
+            patch16(&mut foreign, 0, id.wrapping_add(9));
+            let mut tc = plain_reply.clone();
+            tc[2] |= 0x02;
+            for ds in [vec![plain_reply.clone()], vec![foreign.clone(), plain_reply.clone()], vec![tc.clone()], vec![vec![1, 2, 3]], vec![chain_msg(id, 0, 1).to_vec().unwrap(), plain_reply.clone()], vec![]] {
+                let toks: Vec<String> = ds.iter().map(|d| format!("{} ? ? ?", hex(d))).collect();
+                g.run(format!("udp {} - {} {} {}", a.tok(false), T0, id, toks.join(" ")).trim_end().to_string());
             }
         }
     }
